@@ -50,15 +50,18 @@ def mod(base, rev):
     return '@' + ('-' if rev else '') + ('' if base is None else str(base))
 
 
+STYLE = {'cap': False}      # capitalised element names (JSX component names take another path through the name parser)
+
+
 def head(n):
-    name = 'x-e'
+    name = 'Xe' if STYLE['cap'] else 'x-e'
     parts = ''
     ids = ''
     text = ''
     for tag, kind, w, base, rev in n.sites:
         site = 'k%d-%s%s' % (tag, '$' * w, mod(base, rev))
         if kind == 'name':
-            name = 'x' + site
+            name = ('X' if STYLE['cap'] else 'x') + site
         elif kind == 'class':
             parts += '.' + site
         elif kind == 'id':
@@ -140,7 +143,7 @@ def observe(out):
             raw = t[1] + ' ' + ' '.join('%s=%s' % (a, v) for a, v in t[2])
             m = None
             for a, v in t[2]:
-                if a == 'class' and v:
+                if a in ('class', 'className') and v:
                     mm = RE_MARK.search(v)
                     if mm:
                         m = int(mm.group(1))
@@ -165,13 +168,15 @@ class Mon:
         self.guard_last = None
         self.depth_in = []
 
-    def check(self, abbr, expected, truncated, max_repeat, cls):
+    def check(self, abbr, expected, truncated, max_repeat, cls, syntax=None):
         ctx = self.ctx
         ctx.ev(cls)
         cfg = {'options': {'output.format': False}}
+        if syntax:
+            cfg['syntax'] = syntax
         if max_repeat is not None:
             cfg['maxRepeat'] = max_repeat
-        case = {'abbr': abbr, 'maxRepeat': max_repeat, 'expected': expected, 'truncated': truncated}
+        case = {'abbr': abbr, 'maxRepeat': max_repeat, 'expected': expected, 'truncated': truncated, 'syntax': syntax}
         self.guard_last = None
         r = core.call(self.expand, abbr, cfg)
         ctx.mon('oracle:copies-and-counters')
@@ -442,8 +447,14 @@ def run_shard(desc, ctx):
                     continue
                 done += 1
                 m = rng.choice([None, None, None, None, None, 1, 2, 3, 5, 8, 13, 21, 50, 99, 100, 250])
-                abbr, exp, trunc = tree_case(nodes, m)
-                mon.check(abbr, exp, trunc, m, 'random:limit' if m else 'random')
+                jsx = rng.random() < 0.15
+                STYLE['cap'] = jsx
+                try:
+                    abbr, exp, trunc = tree_case(nodes, m)
+                finally:
+                    STYLE['cap'] = False
+                mon.check(abbr, exp, trunc, m, 'random:limit' if m else 'random', 'jsx' if jsx else rng.choice([None, None, 'xml', 'vue']))
+                ctx.state('syntax', 'jsx+capitalised' if jsx else 'other')
     finally:
         pr.uninstall()
     for k, v in pr.reach().items():
@@ -460,7 +471,7 @@ def replay(case, ctx):
         if r[0] == 'exc' or direct_shape(r[1]) != case['expected_shape']:
             ctx.violation('copy-count', case, {'entry': 'emmet.parse_markup_abbreviation'})
         return
-    Mon(ctx).check(case['abbr'], case['expected'], case['truncated'], case['maxRepeat'], 'replay')
+    Mon(ctx).check(case['abbr'], case['expected'], case['truncated'], case['maxRepeat'], 'replay', case.get('syntax'))
 
 
 CLASSIFIERS = {}
